@@ -2102,3 +2102,511 @@ Proof.
       rewrite TopEq. eapply spec_step_ext; [|exact SIM]. intros q. symmetry. apply EQ.
     + exists m. split; [exact SR|]. intros q. rewrite SIM. apply EQ.
 Qed.
+
+(** * Every returned call has exactly one linearization event, with its answer *)
+
+(** program counters of the program of each call *)
+Definition fam (o : cop) (p : pc) : bool :=
+  match p with
+  | PStart _ | PDone _ | PUnwind (UDone _) => true
+  | PAddEnter _ _ _ | PAddTAcq _ _ | PAddTCrit _ _ | PAddIRead _ _ _ _ | PAddIRel _ _ _ _
+  | PAddUpg _ _ _ _ | PAddUAcq _ _ _ _ | PAddSlow _ _ _ _ =>
+      match o with CAdd _ _ => true | _ => false end
+  | PGetEnter _ _ | PGetRead _ _ | PUnwind (UVal _) =>
+      match o with CGetVal _ => true | _ => false end
+  | PHVal _ | PHValRead _ =>
+      match o with CGetVal _ | CHValue _ => true | _ => false end
+  | PHRel _ =>
+      match o with CGetVal _ | CHValue _ | CHUpdate _ _ => true | _ => false end
+  | PHUpd _ _ | PHUpdAcq _ _ | PHUpdWrite _ _ => match o with CHUpdate _ _ => true | _ => false end
+  | PDel _ | PDelAcq _ | PDelCrit _ => match o with CDeleteUnlocked _ => true | _ => false end
+  | PQEnter _ _ _ _ _ | PQRead _ _ _ _ _ | PQVisit _ _ _ _ | PQNext _ _ =>
+      match o with CQuery _ _ => true | _ => false end
+  | PLDel _ | PLDelAcq _ | PLVisit _ _ _ | PLNext _ | PLEnter _ _ _ | PLCAcq _ _ _
+  | PLRet _ _ _ | PLBack _ _ _ => match o with CDelete _ => true | _ => false end
+  end.
+
+Definition fam_ok (t : thread) : Prop :=
+  fam (top t) (tpc t) = true /\ (forall o, tpc t = PStart o -> o = top t).
+
+Lemma tstep_fam_ok b h t h' t' : fam_ok t -> tstep_gen b h t = Some (h', t') -> fam_ok t'.
+Proof.
+  intros [F S0] ST. split; [|intros o Pc; exfalso; eapply step_not_start; eauto].
+  pose proof (tstep_shape _ _ _ _ _ ST) as SH.
+  destruct t as [o p hs]. cbn [tpc top held] in *.
+  destruct (lockop_of (TH o p hs)) eqn:LO.
+  - destruct SH as [_ ->]. cbn [tpc top].
+    destruct p; cbn -[Nat.ltb hdelete set_cont new_chain] in *; try discriminate; auto;
+    try (rewrite (S0 _ eq_refl));
+    repeat (first
+              [ match goal with |- context [start_pc ?a ?b] => destruct b end
+              | match goal with |- context [match get_cont ?a ?b with _ => _ end] => destruct (get_cont a b) end
+              | match goal with |- context [match assoc ?a ?b with _ => _ end] => destruct (assoc a b) end
+              | match goal with |- context [if Nat.ltb ?a ?b then _ else _] => destruct (Nat.ltb a b) end
+              | match goal with |- context [if Nat.eqb ?a ?b then _ else _] => destruct (Nat.eqb a b) end
+              | match goal with |- context [match query_visits ?a ?b with _ => _ end] => destruct (query_visits a b) end
+              | match goal with |- context [if heads_all ?a then _ else _] => destruct (heads_all a) end
+              | match goal with |- context [match strip_glob ?a with _ => _ end] => destruct (strip_glob a) end
+              | match goal with |- context [match dtodo ?a with _ => _ end] => destruct (dtodo a) as [|[? ?] ?] end
+              | match goal with |- context [match ?x with _ => _ end] => is_var x; destruct x end ];
+            cbn -[Nat.ltb hdelete set_cont new_chain] in *; try discriminate; auto).
+  - destruct SH as [_ [_ ->]]. cbn [tpc top]. destruct p; cbn in *; try discriminate; auto; qfin.
+  - destruct SH as [_ ->]. cbn [tpc top]. destruct p; cbn in *; try discriminate; auto; qfin.
+  - destruct SH as [_ [_ ->]]. cbn [tpc top]. destruct p; cbn in *; try discriminate; auto; qfin.
+  - destruct SH as [n [m [hs' [_ [_ ->]]]]]. cbn [tpc top]. destruct p; cbn in *; try discriminate; auto; qfin.
+Qed.
+
+Lemma reach_fam_ok ops s : reach ops s -> Forall fam_ok (thr s).
+Proof.
+  induction 1 as [|s i s' R IH ST].
+  - cbn. apply Forall_forall. intros t Ht. apply in_map_iff in Ht. destruct Ht as [o [<- _]].
+    split; [reflexivity|]. cbn. intros o' E. inv E. reflexivity.
+  - unfold step, step_gen in ST.
+    destruct (nth_error (thr s) i) as [t|] eqn:Et; [|discriminate].
+    destruct (tstep_gen false (hp s) t) as [[h' t']|] eqn:Ets; [|discriminate]. inv ST. cbn [thr].
+    apply Forall_forall. intros t0 H0. apply In_set_nth in H0. destruct H0 as [->|H0].
+    + eapply tstep_fam_ok; [|exact Ets]. apply (Forall_nth_error _ _ _ _ IH Et).
+    + rewrite Forall_forall in IH. auto.
+Qed.
+
+Definition res_of (p : pc) : option cres :=
+  match p with PUnwind (UDone r) | PDone r | PHRel r => Some r | _ => None end.
+
+Definition point_op (o : cop) : bool :=
+  match o with CAdd _ _ | CGetVal _ => true | _ => false end.
+
+(** an Add / GetLeafValue comes to an answer only through its linearization
+    step (or, for an Add that inserted its chain earlier, through the final
+    store of that chain's leaf) *)
+Lemma enters_res b h log i t h' t' r :
+  fam_ok t -> point_op (top t) = true ->
+  tstep_gen b h t = Some (h', t') -> res_of (tpc t') = Some r ->
+  res_of (tpc t) = Some r \/ lin_event h log i t = Some r \/
+  (r = XAdd true /\ written log i = true).
+Proof.
+  intros [F S0] PO ST. pose proof (tstep_shape _ _ _ _ _ ST) as SH.
+  destruct t as [o p hs]. unfold lin_event. cbn [tpc top held] in *.
+  destruct (lockop_of (TH o p hs)) eqn:LO.
+  - destruct SH as [_ ->]. cbn [tpc].
+    destruct o; try discriminate PO;
+    destruct p; cbn -[Nat.ltb hdelete set_cont new_chain] in *; try discriminate; auto;
+    try (rewrite (S0 _ eq_refl); cbn; discriminate);
+    repeat (first
+              [ match goal with |- context [match get_cont ?a ?b with _ => _ end] => destruct (get_cont a b) end
+              | match goal with |- context [match assoc ?a ?b with _ => _ end] => destruct (assoc a b) end
+              | match goal with |- context [if written ?a ?b then _ else _] => destruct (written a b) end
+              | match goal with |- context [match ?x with _ => _ end] => is_var x; destruct x end ];
+            cbn -[Nat.ltb hdelete set_cont new_chain] in *; try discriminate; auto);
+    try (intros X; inv X; auto; fail).
+  - destruct SH as [_ [_ ->]]. cbn [tpc]. destruct p; cbn in *; try discriminate; auto; qfin.
+  - destruct SH as [_ ->]. cbn [tpc]. destruct p; cbn in *; try discriminate; auto; qfin.
+  - destruct SH as [_ [_ ->]]. cbn [tpc]. destruct p; cbn in *; try discriminate; auto; qfin.
+  - destruct SH as [n [m [hs' [_ [_ ->]]]]]. cbn [tpc]. destruct p; cbn in *; try discriminate; auto; qfin.
+Qed.
+
+Lemma write_lin h log i t p v :
+  is_write h t = Some (p, v) -> lin_event h log i t = Some (XAdd true) \/ written log i = true.
+Proof.
+  unfold is_write, lin_event. destruct (top t); try discriminate. destruct (tpc t); try discriminate.
+  - destruct (is_branch_c (get_cont h t0)); [discriminate|]. destruct (written log i); auto.
+  - destruct (get_cont h t0) as [| |cs]; try discriminate; auto. destruct (assoc k cs); [discriminate|auto].
+Qed.
+
+Lemma written_app log i j p v : written log i = true -> written (log ++ [(j, p, v)]) i = true.
+Proof. unfold written. rewrite existsb_app. intros ->. reflexivity. Qed.
+
+Lemma written_self log i p v : written (log ++ [(i, p, v)]) i = true.
+Proof. unfold written. rewrite existsb_app. cbn. rewrite Nat.eqb_refl. apply orb_true_iff. right. reflexivity. Qed.
+
+Lemma In_written log i p v : In (i, p, v) log -> written log i = true.
+Proof.
+  intros H. unfold written. apply existsb_exists. exists (i, p, v). split; auto. apply Nat.eqb_refl.
+Qed.
+
+(** an Add that has written has its (successful) event *)
+Lemma written_event ops s log ev :
+  reach_lin ops s log ev -> forall i p v, In (i, p, v) log -> In (i, XAdd true) ev.
+Proof.
+  induction 1 as [|s j s' t log ev R IH Et ST]; intros i p v H; [destruct H|].
+  assert (GROW : forall e, In e ev ->
+            In e (match lin_event (hp s) log j t with Some r => ev ++ [(j, r)] | None => ev end)).
+  { intros e He. destruct (lin_event (hp s) log j t); [apply in_or_app; auto|auto]. }
+  destruct (is_write (hp s) t) as [[p0 v0]|] eqn:W; [|apply GROW; eauto].
+  apply in_app_or in H. destruct H as [H|[H|[]]]; [apply GROW; eauto|]. inv H.
+  destruct (write_lin _ log i _ _ _ W) as [L|Wr].
+  - rewrite L. apply in_or_app. right. left. reflexivity.
+  - apply GROW. destruct (written_In _ _ _ _ _ (reach_lin_log _ _ _ _ R) Et Wr) as [p1 [v1 [_ H1]]]. eauto.
+Qed.
+
+(** every Add / GetLeafValue that has its answer has the corresponding event *)
+Theorem lin_complete ops s log ev :
+  reach_lin ops s log ev -> forall i t r,
+  nth_error (thr s) i = Some t -> point_op (top t) = true -> res_of (tpc t) = Some r -> In (i, r) ev.
+Proof.
+  induction 1 as [|s j s' tj log ev R IH Ej ST]; intros i t r Et PO RS.
+  - cbn in Et. rewrite nth_error_map in Et. destruct (nth_error ops i); inv Et. discriminate.
+  - assert (GROW : forall e, In e ev ->
+              In e (match lin_event (hp s) log j tj with Some r => ev ++ [(j, r)] | None => ev end)).
+    { intros e He. destruct (lin_event (hp s) log j tj); [apply in_or_app; auto|auto]. }
+    pose proof (reach_log_reach _ _ _ (reach_lin_log _ _ _ _ R)) as Rs.
+    assert (ST0 := ST). unfold step, step_gen in ST. rewrite Ej in ST.
+    destruct (tstep_gen false (hp s) tj) as [[h' tj']|] eqn:Ets; [|discriminate]. inv ST. cbn [thr] in Et.
+    destruct (Nat.eq_dec j i) as [->|D].
+    + erewrite nth_error_set_nth_eq in Et by eauto. inv Et.
+      pose proof (Forall_nth_error _ _ _ _ (reach_fam_ok _ _ Rs) Ej) as FO.
+      assert (Tt : top t = top tj).
+      { pose proof (tstep_shape _ _ _ _ _ Ets) as SH.
+        destruct (lockop_of tj); repeat match goal with
+                                        | H : _ /\ _ |- _ => destruct H
+                                        | H : exists _, _ |- _ => destruct H
+                                        end; subst; reflexivity. }
+      rewrite Tt in PO.
+      destruct (enters_res _ _ log i _ _ _ _ FO PO Ets RS) as [R0|[L|[-> Wr]]].
+      * apply GROW. eapply IH; eauto.
+      * rewrite L. apply in_or_app. right. left. reflexivity.
+      * apply GROW. destruct (written_In _ _ _ _ _ (reach_lin_log _ _ _ _ R) Ej Wr) as [p1 [v1 [_ H1]]].
+        eapply written_event; eauto.
+    + rewrite nth_error_set_nth_neq in Et by auto. apply GROW. eapply IH; eauto.
+Qed.
+
+Lemma res_closed b h t h' t' r :
+  res_of (tpc t) = Some r -> tstep_gen b h t = Some (h', t') -> res_of (tpc t') = Some r.
+Proof.
+  intros RS ST. pose proof (tstep_shape _ _ _ _ _ ST) as SH.
+  destruct t as [o p hs]. cbn [tpc top held] in *.
+  destruct p; try discriminate RS.
+  - unfold tstep_gen in ST. cbn in ST. discriminate.
+  - destruct k; try discriminate RS. cbn in RS. inv RS. unfold lockop_of in SH. cbn [tpc held] in SH.
+    destruct hs as [|[n m] hs].
+    + destruct SH as [_ ->]. reflexivity.
+    + destruct SH as [n' [m' [hs' [_ [_ ->]]]]]. reflexivity.
+  - cbn in RS. inv RS. destruct SH as [n' [m' [hs' [_ [_ ->]]]]]. reflexivity.
+Qed.
+
+Lemma lin_post b h log i t h' t' r :
+  lin_event h log i t = Some r -> tstep_gen b h t = Some (h', t') ->
+  res_of (tpc t') = Some r \/ exists p v, is_write h t = Some (p, v).
+Proof.
+  intros L ST. pose proof (tstep_shape _ _ _ _ _ ST) as SH.
+  destruct t as [o p hs]. unfold lin_event, is_write in *. cbn [tpc top held] in *.
+  destruct o; try discriminate L; destruct p; try discriminate L;
+    unfold lockop_of in SH; cbn -[set_cont new_chain] in SH.
+  - destruct SH as [_ ->]. cbn [tpc].
+    destruct (get_cont h t); cbn in *; try (inv L; auto; fail);
+      destruct (written log i); inv L; auto.
+  - destruct SH as [_ ->]. cbn [tpc]. destruct (get_cont h t); cbn in *; try discriminate. inv L. auto.
+  - destruct SH as [_ ->]. cbn [tpc]. destruct (get_cont h t) as [| |cs]; cbn -[set_cont new_chain] in *.
+    + right. eauto.
+    + inv L. auto.
+    + destruct (assoc k cs); [discriminate|]. right. eauto.
+  - destruct p as [|k r0]; [discriminate|]. cbn in SH. destruct SH as [_ ->]. cbn [tpc].
+    destruct (get_cont h t) as [| |cs]; cbn in *; try (inv L; auto; fail).
+    destruct (assoc k cs); [discriminate|]. inv L. auto.
+  - destruct SH as [_ ->]. cbn. inv L. auto.
+Qed.
+
+(** after its linearization point a call has no second one *)
+Lemma no_second ops s log i t :
+  forallb quiet_op ops = true -> reach_log ops s log -> nth_error (thr s) i = Some t ->
+  (res_of (tpc t) <> None \/ written log i = true) -> lin_event (hp s) log i t = None.
+Proof.
+  intros Q R Et [RS|Wr].
+  - unfold lin_event. destruct (top t); auto; destruct (tpc t); auto; try (exfalso; apply RS; reflexivity);
+      cbn in RS; try contradiction.
+  - destruct (written_In _ _ _ _ _ R Et Wr) as [p [v [Tp H]]].
+    destruct (reach_cp _ _ _ Q R i t Et) as [_ C1].
+    unfold lin_event. rewrite Tp. destruct (tpc t) eqn:Pc; auto.
+    + destruct (C1 p v t0 [] Tp H) as [n [pn [sfx [l [_ [_ [_ [_ [Rt El]]]]]]]]].
+      { unfold walk_pos. rewrite Tp, Pc. reflexivity. }
+      cbn in Rt. inv Rt. rewrite El. cbn. rewrite Wr. reflexivity.
+    + destruct (C1 p v t0 (k :: r) Tp H) as [n [pn [sfx [l [_ [_ [_ [_ [Rt El]]]]]]]]].
+      { unfold walk_pos. rewrite Tp, Pc. reflexivity. }
+      cbn in Rt. destruct (get_cont (hp s) t0); try discriminate. reflexivity.
+    + destruct (C1 p v t0 (k :: r) Tp H) as [n [pn [sfx [l [_ [_ [_ [_ [Rt El]]]]]]]]].
+      { unfold walk_pos. rewrite Tp, Pc. reflexivity. }
+      cbn in Rt. destruct (get_cont (hp s) t0) as [| |cs]; try discriminate.
+      destruct (assoc k cs); [reflexivity|discriminate].
+Qed.
+
+(** a thread that has an event is past its linearization point *)
+Lemma event_post ops s log ev :
+  forallb quiet_op ops = true -> reach_lin ops s log ev ->
+  forall i t r, nth_error (thr s) i = Some t -> In (i, r) ev ->
+  res_of (tpc t) <> None \/ written log i = true.
+Proof.
+  intros Q R. induction R as [|s j s' tj log ev R IH Ej ST]; intros i t r Et H; [destruct H|].
+  assert (WG : forall k, written log k = true ->
+            written (match is_write (hp s) tj with Some (p, v) => log ++ [(j, p, v)] | None => log end) k = true).
+  { intros k W. destruct (is_write (hp s) tj) as [[p v]|]; [apply written_app; auto|auto]. }
+  assert (ST0 := ST). unfold step, step_gen in ST. rewrite Ej in ST.
+  destruct (tstep_gen false (hp s) tj) as [[h' tj']|] eqn:Ets; [|discriminate]. inv ST. cbn [thr] in Et.
+  destruct (Nat.eq_dec j i) as [->|D].
+  - erewrite nth_error_set_nth_eq in Et by eauto. inv Et.
+    assert (OLD : In (i, r) ev -> res_of (tpc t) <> None \/
+              written (match is_write (hp s) tj with Some (p, v) => log ++ [(i, p, v)] | None => log end) i = true).
+    { intros H0. destruct (IH i tj r Ej H0) as [RS|W]; [|right; auto].
+      left. destruct (res_of (tpc tj)) as [r0|] eqn:E0; [|contradiction].
+      rewrite (res_closed _ _ _ _ _ _ E0 Ets). discriminate. }
+    destruct (lin_event (hp s) log i tj) as [r0|] eqn:L; [|auto].
+    apply in_app_or in H. destruct H as [H|[H|[]]]; [auto|]. inv H.
+    destruct (lin_post _ _ _ _ _ _ _ _ L Ets) as [RS|[p [v W]]].
+    + left. rewrite RS. discriminate.
+    + right. rewrite W. apply written_self.
+  - rewrite nth_error_set_nth_neq in Et by auto.
+    assert (H0 : In (i, r) ev).
+    { destruct (lin_event (hp s) log j tj); [|exact H].
+      apply in_app_or in H. destruct H as [H|[H|[]]]; [exact H|]. inv H. contradiction. }
+    destruct (IH i t r Et H0) as [RS|W]; [left; exact RS|right; auto].
+Qed.
+
+(** no call is linearized twice *)
+Theorem lin_unique ops s log ev :
+  forallb quiet_op ops = true -> reach_lin ops s log ev -> NoDup (map fst ev).
+Proof.
+  intros Q R. induction R as [|s j s' tj log ev R IH Ej ST]; [constructor|].
+  destruct (lin_event (hp s) log j tj) as [r|] eqn:L; [|exact IH].
+  rewrite map_app. cbn. apply NoDup_app_intro_single; [exact IH|].
+  intros H. apply in_map_iff in H. destruct H as [[j' r0] [E H]]. cbn in E. subst j'.
+  pose proof (event_post _ _ _ _ Q R j tj r0 Ej H) as P.
+  rewrite (no_second _ _ _ _ _ Q (reach_lin_log _ _ _ _ R) Ej P) in L. discriminate.
+Qed.
+
+(** a call that has an event has been invoked *)
+Lemma event_started ops s log ev :
+  forallb quiet_op ops = true -> reach_lin ops s log ev ->
+  forall i t r o, nth_error (thr s) i = Some t -> In (i, r) ev -> tpc t <> PStart o.
+Proof.
+  intros Q R i t r o Et H Pc.
+  destruct (event_post _ _ _ _ Q R i t r Et H) as [RS|W].
+  - rewrite Pc in RS. apply RS. reflexivity.
+  - destruct (written_In _ _ _ _ _ (reach_lin_log _ _ _ _ R) Et W) as [p [v [_ Hl]]].
+    destruct (reach_cp _ _ _ Q (reach_lin_log _ _ _ _ R) i t Et) as [C0 _]. eapply C0; eauto.
+Qed.
+
+(** ** real-time order: continuing a run only appends events *)
+Inductive run_lin (ops : list cop) :
+  state * list (nat * path * Z) * list (nat * cres) ->
+  state * list (nat * path * Z) * list (nat * cres) -> Prop :=
+| rl_refl c : run_lin ops c c
+| rl_more c s i s' t log ev :
+    run_lin ops c (s, log, ev) -> nth_error (thr s) i = Some t -> step s i = Some s' ->
+    run_lin ops c (s',
+      (match is_write (hp s) t with Some (p, v) => log ++ [(i, p, v)] | None => log end),
+      (match lin_event (hp s) log i t with Some r => ev ++ [(i, r)] | None => ev end)).
+
+Lemma run_lin_reach ops s1 log1 ev1 s2 log2 ev2 :
+  reach_lin ops s1 log1 ev1 -> run_lin ops (s1, log1, ev1) (s2, log2, ev2) -> reach_lin ops s2 log2 ev2.
+Proof.
+  intros R H. remember (s1, log1, ev1) as c1. remember (s2, log2, ev2) as c2.
+  revert s2 log2 ev2 Heqc2. induction H as [c|c s i s' t log ev H IH Et ST]; intros s2 log2 ev2 E2.
+  - subst c. inv E2. exact R.
+  - inv E2. eapply rli_step; eauto.
+Qed.
+
+Lemma run_lin_prefix ops c1 c2 : run_lin ops c1 c2 -> exists rest, snd c2 = snd c1 ++ rest.
+Proof.
+  induction 1 as [c|c s i s' t log ev H [rest IH] Et ST]; [exists []; rewrite app_nil_r; auto|].
+  cbn in *. destruct (lin_event (hp s) log i t) as [r|].
+  - exists (rest ++ [(i, r)]). rewrite IH, app_assoc. reflexivity.
+  - exists rest. exact IH.
+Qed.
+
+(** if call a has returned when call b has not yet been invoked, then a is
+    linearized before b *)
+Theorem lin_real_time ops s1 log1 ev1 s2 log2 ev2 a ta ra b tb o rb :
+  forallb quiet_op ops = true ->
+  reach_lin ops s1 log1 ev1 -> run_lin ops (s1, log1, ev1) (s2, log2, ev2) ->
+  nth_error (thr s1) a = Some ta -> point_op (top ta) = true -> tpc ta = PDone ra ->
+  nth_error (thr s1) b = Some tb -> tpc tb = PStart o ->
+  In (b, rb) ev2 ->
+  exists l1 l2 l3, ev2 = l1 ++ (a, ra) :: l2 ++ (b, rb) :: l3.
+Proof.
+  intros Q R1 RUN Ea PO Da Eb Sb Hb.
+  destruct (run_lin_prefix _ _ _ RUN) as [rest E]. cbn in E. subst ev2.
+  assert (Ha : In (a, ra) ev1).
+  { eapply lin_complete; eauto. rewrite Da. reflexivity. }
+  assert (Nb : ~ In (b, rb) ev1).
+  { intros H. eapply (event_started _ _ _ _ Q R1 b tb rb o); eauto. }
+  apply in_app_or in Hb. destruct Hb as [Hb|Hb]; [contradiction|].
+  apply in_split in Ha. destruct Ha as [l1 [l2 ->]].
+  apply in_split in Hb. destruct Hb as [l3 [l4 ->]].
+  exists l1, (l2 ++ l3), l4. rewrite <- !app_assoc. cbn. reflexivity.
+Qed.
+
+(** * Query stability, completeness half (programs without Delete / handle Update) *)
+
+Definition items_pending (its : list qitem) (pth : path) : Prop :=
+  exists c pre qc s, In (c, pre, qc) its /\ pth = pre ++ s /\ qmatch qc s = true.
+
+(** every leaf of [S0] that the query selects is reported already, or is about
+    to be, or lies below a node the query still has to visit *)
+Definition cov_pc (S0 : path -> Prop) (q : path) (p : pc) : Prop :=
+  forall pth, S0 pth -> qmatch q pth = true ->
+  match p with
+  | PQEnter t0 pre qr acc fr | PQRead t0 pre qr acc fr =>
+      In pth (map fst acc) \/ items_pending ((t0, pre, qr) :: List.concat fr) pth
+  | PQVisit pre v acc fr => In pth (map fst acc) \/ pth = pre \/ items_pending (List.concat fr) pth
+  | PQNext acc fr => In pth (map fst acc) \/ items_pending (List.concat fr) pth
+  | PDone (XLeaves acc) | PUnwind (UDone (XLeaves acc)) => In pth (map fst acc)
+  | _ => True
+  end.
+
+Lemma items_pending_incl l1 l2 pth : incl l1 l2 -> items_pending l1 pth -> items_pending l2 pth.
+Proof. intros I [c [pre [qc [s [H X]]]]]. exists c, pre, qc, s. split; auto. Qed.
+
+Lemma qmatch_leaf_visits qr v : qmatch qr [] = true -> query_visits (CLeaf v) qr = Some v.
+Proof.
+  destruct qr as [|k r]; cbn; [reflexivity|]. destruct (is_glob k); [|discriminate].
+  destruct r; [reflexivity|discriminate].
+Qed.
+
+(** the child through which a selected leaf is reached is among the items *)
+Lemma qmatch_child_item cs pre qr a s c :
+  NoDup (keys cs) -> assoc a cs = Some c -> qmatch qr (a :: s) = true ->
+  exists qc, In (c, pre ++ [a], qc) (query_items (CBranch cs) pre qr) /\ qmatch qc s = true.
+Proof.
+  intros ND A M. pose proof (assoc_In _ _ _ A) as I.
+  assert (ALL : forall r' : path, In ((c, pre ++ [a], r') : qitem) (map (fun kc : string * nat => ((snd kc, pre ++ [fst kc], r') : qitem)) cs)).
+  { intros r'. apply in_map_iff. exists (a, c). split; [reflexivity|exact I]. }
+  unfold query_items. destruct qr as [|k r]; [exists []; split; [apply ALL|reflexivity]|].
+  cbn in M. destruct (is_glob k) eqn:G.
+  - exists r. split; [apply ALL|]. destruct r; [reflexivity|exact M].
+  - apply andb_true_iff in M. destruct M as [E M]. apply String.eqb_eq in E. subst k.
+    rewrite A. exists r. split; [left; reflexivity|exact M].
+Qed.
+
+Lemma cov_step b h t h' t' (S0 : path -> Prop) q :
+  keys_nodup h -> q_ok h t -> fam_ok t -> (forall pth, S0 pth -> leaf_at h pth) ->
+  top t = CQuery q None -> cov_pc S0 q (tpc t) -> tstep_gen b h t = Some (h', t') ->
+  cov_pc S0 q (tpc t').
+Proof.
+  intros KN QO [FA S1] LF Tp CV ST. pose proof (tstep_shape _ _ _ _ _ ST) as SH.
+  destruct t as [o p hs]. cbn [top tpc held] in *. subst o.
+  intros pth Hs Hm. specialize (CV pth Hs Hm). specialize (LF pth Hs).
+  unfold q_ok in QO. cbn [tpc] in QO.
+  destruct p; cbn -[Nat.ltb] in FA; try discriminate FA;
+    unfold lockop_of in SH; cbn -[Nat.ltb set_cont new_chain] in SH.
+  - (* PStart *) destruct SH as [_ ->]. rewrite (S1 _ eq_refl). cbn.
+    right. exists 0, [], q, pth. split; [left; reflexivity|]. split; [reflexivity|exact Hm].
+  - (* PDone *) unfold tstep_gen in ST. cbn in ST. discriminate.
+  - (* PUnwind *) destruct k; [|discriminate FA]. destruct hs as [|[n m] hs].
+    + destruct SH as [_ ->]. cbn. destruct r; exact I || exact CV.
+    + destruct SH as [n' [m' [hs' [_ [_ ->]]]]]. cbn. destruct r; exact I || exact CV.
+  - (* PQEnter *) destruct SH as [_ [_ ->]]. exact CV.
+  - (* PQRead *) destruct SH as [_ ->]. cbn [tpc visit_override].
+    destruct QO as [Rp _].
+    destruct CV as [CV|[c [pre0 [qc [s [[X|X] [Ep M]]]]]]].
+    + destruct (query_visits (get_cont h t) q0); cbn; auto.
+    + inv X. (* the leaf lies below the node being read *)
+      destruct LF as [l [w [Rl El]]]. rewrite resolve_app, Rp in Rl.
+      destruct s as [|a s].
+      * cbn in Rl. inv Rl. rewrite El. rewrite (qmatch_leaf_visits _ w M). cbn.
+        right; left. rewrite app_nil_r. reflexivity.
+      * cbn in Rl. destruct (get_cont h c) as [| |cs] eqn:E; try discriminate.
+        destruct (assoc a cs) as [c'|] eqn:A; [|discriminate]. cbn.
+        destruct (qmatch_child_item cs pre0 qc a s c' (KN _ _ E) A M) as [qc' [I' M']].
+        right. exists c', (pre0 ++ [a]), qc', s. split; [cbn; apply in_or_app; left; exact I'|].
+        split; [rewrite <- app_assoc; reflexivity|exact M'].
+    + (* below another pending item *)
+      assert (P : items_pending (List.concat fr) pth) by (exists c, pre0, qc, s; auto).
+      destruct (query_visits (get_cont h t) q0); cbn.
+      * right; right. exact P.
+      * right. eapply items_pending_incl; [|exact P]. intros x Hx. cbn. apply in_or_app. right. exact Hx.
+  - (* PQVisit *) destruct SH as [_ ->]. cbn [tpc visit_override]. cbn.
+    rewrite map_app. cbn. destruct CV as [CV|[CV|CV]].
+    + left. apply in_or_app. left. exact CV.
+    + left. apply in_or_app. right. left. auto.
+    + right. exact CV.
+  - (* PQNext *) destruct fr as [|[|[[c pre0] q0] todo] fr]; cbn in SH.
+    + destruct SH as [_ ->]. cbn. destruct CV as [CV|[c [pre0 [qc [s [[] _]]]]]]. exact CV.
+    + destruct SH as [n' [m' [hs' [_ [_ ->]]]]]. cbn. exact CV.
+    + destruct SH as [_ ->]. cbn. exact CV.
+Qed.
+
+Inductive steps : state -> state -> Prop :=
+| steps_refl s : steps s s
+| steps_more s1 s i s' : steps s1 s -> step s i = Some s' -> steps s1 s'.
+
+Lemma absf_leaf_at h p : absf h p <> None -> leaf_at h p.
+Proof.
+  unfold absf, leaf_at. destruct (resolve h 0 p) as [n|]; [|contradiction].
+  destruct (get_cont h n) eqn:E; try contradiction. eauto.
+Qed.
+
+(** Query stability, completeness half: a Query / Walk (whose visitor does not
+    fail) reports every leaf that matches it and was stored when the query was
+    invoked -- in programs without Delete / handle Update such a leaf stays
+    stored, so these are the leaves present during its whole execution. *)
+Theorem query_reports_all ops s1 s2 i t1 t2 q acc :
+  forallb quiet_op ops = true -> reach ops s1 -> steps s1 s2 ->
+  nth_error (thr s1) i = Some t1 -> tpc t1 = PStart (CQuery q None) ->
+  nth_error (thr s2) i = Some t2 -> tpc t2 = PDone (XLeaves acc) ->
+  forall pth, absf (hp s1) pth <> None -> qmatch q pth = true -> In pth (map fst acc).
+Proof.
+  intros Q R1 RUN E1 P1 E2 P2.
+  set (S0 := fun pth => leaf_at (hp s1) pth).
+  assert (QP := quiet_patched _ Q).
+  assert (G : reach ops s2 /\ (forall pth, S0 pth -> leaf_at (hp s2) pth) /\
+              exists t, nth_error (thr s2) i = Some t /\ top t = CQuery q None /\ cov_pc S0 q (tpc t)).
+  { clear E2 P2. induction RUN as [s|s1 s j s' RUN IH ST].
+    - split; [exact R1|]. split; [auto|]. exists t1. split; [exact E1|]. split.
+      + destruct (Forall_nth_error _ _ _ _ (reach_fam_ok _ _ R1) E1) as [_ S1]. symmetry. apply S1. exact P1.
+      + rewrite P1. intros pth _ _. exact I.
+    - destruct (IH R1 E1) as [R [LF [t [Et [Tp CV]]]]].
+      split; [econstructor; eauto|].
+      destruct (reach_AInv _ _ Q R) as [[HO [TO _]] [QS _]].
+      destruct (reach_TInv _ _ QP R) as [_ [_ [KN _]]].
+      assert (ST0 := ST). unfold step, step_gen in ST.
+      destruct (nth_error (thr s) j) as [tj|] eqn:Ej; [|discriminate].
+      destruct (tstep_gen false (hp s) tj) as [[h' tj']|] eqn:Ets; [|discriminate]. inv ST. cbn [hp thr].
+      pose proof (Forall_nth_error _ _ _ _ TO Ej) as Tj.
+      pose proof (Forall_nth_error _ _ _ _ QS Ej) as Qj. cbn in Qj.
+      pose proof (tstep_cont_mono _ _ _ _ _ Tj Qj Ets) as CM.
+      split; [intros pth Hp; eapply leaf_at_mono; eauto|].
+      destruct (Nat.eq_dec j i) as [->|D].
+      + rewrite Et in Ej. inv Ej. exists tj'. split; [eapply nth_error_set_nth_eq; eauto|].
+        split.
+        * pose proof (tstep_shape _ _ _ _ _ Ets) as SH.
+          destruct (lockop_of tj); repeat match goal with
+                                          | H : _ /\ _ |- _ => destruct H
+                                          | H : exists _, _ |- _ => destruct H
+                                          end; subst; exact Tp.
+        * eapply cov_step; eauto.
+          -- apply (Forall_nth_error _ _ _ _ (reach_q_ok _ _ Q R) Et).
+          -- apply (Forall_nth_error _ _ _ _ (reach_fam_ok _ _ R) Et).
+      + exists t. split; [rewrite nth_error_set_nth_neq by auto; exact Et|auto]. }
+  destruct G as [_ [_ [t [Et [_ CV]]]]]. rewrite E2 in Et. inv Et. rewrite P2 in CV.
+  intros pth NN M. apply (CV pth); auto. unfold S0. apply absf_leaf_at. exact NN.
+Qed.
+
+(** * With Delete: everything stored was written by an Add of the program *)
+
+Definition no_hupd_op (o : cop) : bool :=
+  match o with CHUpdate _ _ | CDeleteUnlocked _ => false | _ => true end.
+
+Theorem stored_was_added ops s log :
+  forallb no_hupd_op ops = true -> reach_log ops s log ->
+  forall q v, absf (hp s) q = Some v -> exists i, In (i, q, v) log.
+Proof.
+  intros Q R. assert (QP : forallb patched_op ops = true).
+  { rewrite forallb_forall in *. intros o Ho. specialize (Q o Ho). destruct o; auto; discriminate. }
+  induction R as [|s i s' t log R IH Et ST]; intros q v A.
+  - rewrite absf_init in A. discriminate.
+  - pose proof (reach_log_reach _ _ _ R) as Rs.
+    assert (GROW : forall j, In (j, q, v) log ->
+              exists j', In (j', q, v) (match is_write (hp s) t with Some (p0, v0) => log ++ [(i, p0, v0)] | None => log end)).
+    { intros j H. exists j. destruct (is_write (hp s) t) as [[p0 v0]|]; [apply in_or_app; auto|auto]. }
+    destruct (step_abs_effect s i s' t (reach_TInv _ _ QP Rs) (reach_val_ok _ _ Rs) ST Et)
+      as [W E|p0 v0 W Tp E|n v0 Pc _|D E].
+    + rewrite E in A. destruct (IH _ _ A) as [j H]. eauto.
+    + rewrite W. rewrite E in A. unfold upd in A. destruct (path_eqb_spec q p0) as [->|NE].
+      * inv A. exists i. apply in_or_app. right. left. reflexivity.
+      * destruct (IH _ _ A) as [j H]. exists j. apply in_or_app. auto.
+    + (* no Leaf.Update in the program *)
+      exfalso. destruct (Forall_nth_error _ _ _ _ (reach_fam_ok _ _ Rs) Et) as [F _].
+      rewrite Pc in F. cbn in F.
+      pose proof (nth_error_top _ _ _ _ Rs Et) as O. rewrite forallb_forall in Q.
+      specialize (Q _ (nth_error_In _ _ O)). destruct (top t); try discriminate.
+    + destruct (E q) as [E'|E']; rewrite E' in A; [|discriminate].
+      destruct (IH _ _ A) as [j H]. eauto.
+Qed.
